@@ -974,6 +974,22 @@ def check_c19_session(cfg, world, tr, acc):
                 d = (t - e).total_seconds()
                 acc.see('C19:entry_vs_rebalance', 'exactly-on' if d == 0 else 'minute-after' if d == -60 else
                         'minute-before' if d == 60 else 'before' if d > 0 else 'after')
+    # "included from the first such rebalance onward": the first scheduled rebalance at or after an asset's entry (and not
+    # before the burn-in instant, inclusive) is a rebalance that ran and that gave the asset its target weight
+    ran = {py(r['dt']): r for r in tr.pcm}
+    insts = [py(t_) for t_ in refmodel.rebalance_instants(cfg)]
+    for a, e in entries.items():
+        if e is None:
+            continue
+        first = [t_ for t_ in insts if t_ >= e]
+        if not first:
+            continue
+        r = ran.get(first[0])
+        if r is None or a not in (set(r['row'] or {}) - {'Date'}):
+            V('C19', 'not-included-at-first-rebalance-after-entry', 'asset %s enters at %s; the first scheduled rebalance at or after that '
+              'is %s (burn-in %s): %s' % (a, e, first[0], cfg.get('burn_in'), 'no portfolio construction ran at that instant' if r is None
+                                          else 'its target allocation has no entry for the asset'))
+        acc.count('C19:first_rebalances_after_entry_checked')
     for f in tr.fills:
         t = py(f['dt'])
         e = entries.get(f['asset'])
